@@ -18,7 +18,7 @@ HistLen == IF Quick THEN 3 ELSE 4
 \* ---------------- string-method grid --------------------------------------------------------------
 RECURSIVE Words(_, _)
 Words(alpha, n) == IF n = 0 THEN {<<>>} ELSE LET w == Words(alpha, n - 1) IN w \cup {Append(u, c) : u \in {v \in w : Len(v) = n - 1}, c \in alpha}
-SmSubjects == IF Quick THEN Words({97, 98}, 2) \cup {<<97, 97, 98>>, <<97, 98, 97>>, <<98, 97, 98>>, <<97, 98, 99>>, <<99, 97, 98>>}
+SmSubjects == IF Quick THEN {<<>>, <<97>>, <<98>>, <<97, 98>>, <<98, 97>>, <<97, 97>>, <<97, 97, 98>>, <<97, 98, 97>>, <<99, 97, 98>>}
               ELSE Words({97, 98, 99}, 3) \cup {<<97, 97, 98, 97>>, <<98, 97, 98, 97>>}
 SmAtoms == {Chr(97), Chr(98), AnyC, Eps}
 SmUnary(k, a) ==
@@ -34,7 +34,7 @@ SmPatterns ==
 SmFlags == {"", "g", "y", "gy"}
 Templates == {<<>>, U("x"), U("$$"), U("$&"), U("$`"), U("$'"), U("$1"), U("$2"), U("$01"), U("$10"), U("$0"), U("$"),
               U("$$&"), U("$1$1"), U("[$&|$`|$']"), U("$3"), U("$&$&"), U("a$")}
-QuickTemplates == {<<>>, U("x"), U("$$"), U("$&"), U("$`"), U("$'"), U("$1"), U("$2"), U("$01"), U("$10"), U("$0"), U("[$&|$`|$']"), U("$$&")}
+QuickTemplates == {<<>>, U("$$"), U("$&"), U("$1"), U("$2"), U("$01"), U("$10"), U("$0"), U("[$&|$`|$']"), U("$$&")}
 \* a variant = [m |-> method, t |-> template | fn |-> replacer | lim |-> limit (-1 = undefined)], li0 = lastIndex before the call
 Variants ==
   {[m |-> "match"], [m |-> "search"]}
@@ -86,6 +86,7 @@ Recs == ndJsonDeserialize(IOEnv.OBS_FILE)
 \*                    obs: per step [out ("ok" | "host" | "jserror" ...), ty, res, li]]
 \*   res: exec -> match observation; test -> [k |-> "bool", b]; read -> [k |-> "val", v]; assignment -> [k |-> "none"]
 ApiDevs(rxv) == (IF rxv.g /\ ~rxv.y THEN {"Dev_ExecEmptyAdvance"} ELSE {}) \cup (IF rxv.y /\ ~rxv.g THEN {"Dev_TestStickyNoUpdate"} ELSE {})
+HeldAsFloat(v) == "f" \in DOMAIN v /\ v.f          \* the driver marks a number the engine holds as a Python float
 SameRes(op, act, exp) ==
   IF op = "exec" THEN act.k = exp.k /\ (act.k = "m" => act.i = exp.i /\ act.g = exp.g)
   ELSE act.k = "bool" /\ act.b = (exp.k = "m")
@@ -106,24 +107,25 @@ StepVerdict(rxv, s, op, pre, ev) ==
         clause == IF ev.out # "ok" THEN "outcome" ELSE IF ~SameRes(op, ev.res, ref.res) THEN "result" ELSE "lastIndex"
         exp == [res |-> ref.res, li |-> ref.li]
     IN IF good THEN [ok |-> TRUE, clause |-> "", dev |-> "", exp |-> exp]
-       ELSE IF uses /\ ~IsIntVal(pre)
-            THEN \* as-is: the raw value reaches range() / string indexing (regex/vm.py search, _execute): host TypeError, nothing written
-                 [ok |-> FALSE, clause |-> clause, exp |-> exp,
-                  dev |-> IF ev.out = "host" /\ ev.ty = "TypeError" /\ SameVal(ev.li, pre) THEN "Dev_LastIndexNotInteger" ELSE ""]
-       ELSE IF uses /\ IntOf(pre) < 0
-            THEN \* as-is: a negative start position indexes the subject from its end (regex/vm.py _execute): opaque on this input class
-                 [ok |-> FALSE, clause |-> clause, exp |-> exp,
-                  dev |-> IF ev.out = "ok" \/ (ev.out = "host" /\ ev.ty = "IndexError") THEN "Dev_LastIndexNegative" ELSE ""]
-       ELSE IF rxv.y /\ IntOf(pre) > Len(s)
-            THEN \* as-is: RegexVM.match is started beyond the end of the subject; patterns that need no character match there
-                 [ok |-> FALSE, clause |-> clause, exp |-> exp,
-                  dev |-> IF ev.out = "ok" \/ (ev.out = "host" /\ ev.ty = "IndexError") THEN "Dev_StickyBeyondEnd" ELSE ""]
-       ELSE IF ev.out # "ok" THEN [ok |-> FALSE, clause |-> clause, exp |-> exp, dev |-> ""]
-       ELSE LET cands == {d \in SUBSET (ApiDevs(rxv) \cup Applicable(rxv.ast, rxv.f)) : d # {}}
-                hit == {d \in cands : LET r == ExecAsIs(rxv, s, pre, d, op = "test") IN SameRes(op, ev.res, r.res) /\ SameVal(ev.li, r.li)}
-            IN [ok |-> FALSE, clause |-> clause, exp |-> exp,
-                dev |-> IF hit = {} THEN ""
-                        ELSE LET d == CHOOSE d \in hit : \A e \in hit : Cardinality(d) <= Cardinality(e) IN CHOOSE x \in d : TRUE]
+       ELSE
+         LET special ==
+               IF uses /\ (~IsIntVal(pre) \/ HeldAsFloat(pre)) /\ ev.out = "host" /\ ev.ty = "TypeError" /\ SameVal(ev.li, pre)
+               THEN \* as-is: the raw value (1.5, "1", or an integer held as a float) reaches range() / string indexing
+                    \* (values.py JSRegExp.exec -> regex/vm.py search, _execute): host TypeError, nothing written
+                    "Dev_LastIndexNotInteger"
+               ELSE IF uses /\ IsIntVal(pre) /\ IntOf(pre) < 0 /\ (ev.out = "ok" \/ (ev.out = "host" /\ ev.ty = "IndexError"))
+               THEN \* as-is: a negative start position indexes the subject from its end (regex/vm.py _execute): opaque on this input class
+                    "Dev_LastIndexNegative"
+               ELSE IF rxv.y /\ IsIntVal(pre) /\ IntOf(pre) > Len(s) /\ (ev.out = "ok" \/ (ev.out = "host" /\ ev.ty = "IndexError"))
+               THEN \* as-is: RegexVM.match is started beyond the end of the subject; patterns that need no character match there
+                    "Dev_StickyBeyondEnd"
+               ELSE ""
+             cands == {d \in SUBSET (ApiDevs(rxv) \cup Applicable(rxv.ast, rxv.f)) : d # {}}
+             hit == IF ev.out # "ok" THEN {}
+                    ELSE {d \in cands : LET r == ExecAsIs(rxv, s, pre, d, op = "test") IN SameRes(op, ev.res, r.res) /\ SameVal(ev.li, r.li)}
+         IN [ok |-> FALSE, clause |-> clause, exp |-> exp,
+             dev |-> IF hit # {} THEN LET d == CHOOSE d \in hit : \A e \in hit : Cardinality(d) <= Cardinality(e) IN CHOOSE x \in d : TRUE
+                     ELSE special]
 TraceInit == /\ tid \in 1..Len(Recs) /\ step = 1 /\ mli = VInt(0) /\ bad = <<>> /\ ph = "trace" /\ cur = <<>>
 TraceNext ==
   /\ step <= Len(Recs[tid].ops)
